@@ -40,16 +40,45 @@ struct World<'a> {
     step: u64,
     /// (replica, element id) -> first position info, for C04 order checks: per replica, per list, last seen order of visible ids
     seen_pairs: HashMap<(String, String, String), bool>,
+    /// per replica: the last reply of the runner's ITG model
+    itg: Vec<String>,
 }
 
 impl<'a> World<'a> {
-    fn model_apply(&mut self, r: usize, v1: &[u8]) {
+    fn model_apply(&mut self, r: usize, v1: &[u8]) { self.model_apply_units(r, v1); self.model_apply_itg(r, v1); }
+    /// the unit-level model: only the SET of delivered operations matters to it
+    fn model_apply_units(&mut self, r: usize, v1: &[u8]) {
         if let Some(md) = self.md.as_mut() {
             let ans = md.ask(&format!("D apply r{} {}", r, hex(v1)));
             if !ans.starts_with("ok") {
                 self.out.disagreements.push(json!({"kind": "model-decode", "step": self.step, "replica": r, "model": ans, "update": hex(v1)}));
             }
         }
+    }
+    /// the transcription of apply_update / Update::integrate / BlockPicker (Crdt/Integrate.v): what it integrates and what it sets
+    /// aside depends on how the blocks are batched, so it is fed exactly the update the implementation was given (in v1 form)
+    fn model_apply_itg(&mut self, r: usize, v1: &[u8]) {
+        if let Some(md) = self.md.as_mut() {
+            let a2 = md.ask(&format!("ITG apply r{} {}", r, hex(v1)));
+            while self.itg.len() <= r { self.itg.push(String::new()); }
+            self.itg[r] = a2;
+        }
+    }
+    /// integrated ranges, holes, pending flag and missing vector of a replica in the format of the runner's ITG reply
+    fn itg_string(vs: &yrs::verif::VStore) -> String {
+        let fmt = |skip: bool| -> String {
+            let mut cs: Vec<(usize, String, String)> = vec![];
+            for (c, bs) in &vs.blocks {
+                let mut runs: Vec<(u32, u32)> = vec![];
+                for b in bs { let (k, l, is_skip) = match b { yrs::verif::VBlock::Item(it) => (it.id.clock, it.len, false), yrs::verif::VBlock::GC(id, l) => (id.clock, *l, false), yrs::verif::VBlock::Skip(id, l) => (id.clock, *l, true) };
+                    if is_skip != skip { continue; }
+                    match runs.last_mut() { Some(last) if last.1 == k => last.1 = k + l, _ => runs.push((k, k + l)) } }
+                if !runs.is_empty() { let h = format!("{:x}", c); cs.push((h.len(), h.clone(), format!("{}={}", h, runs.iter().map(|(a, b)| format!("{:x}-{:x}", a, b)).collect::<Vec<_>>().join(",")))); }
+            }
+            cs.sort(); if cs.is_empty() { "_".into() } else { cs.into_iter().map(|x| x.2).collect::<Vec<_>>().join(";") }
+        };
+        let mut ms: Vec<(usize, String, String)> = vs.pending_missing.iter().map(|(c, k)| { let h = format!("{:x}", c); (h.len(), h, format!("{:x}", k)) }).collect(); ms.sort();
+        format!("ok ranges={} holes={} pending={} missing={}", fmt(false), fmt(true), if vs.has_pending { "1" } else { "0" }, if ms.is_empty() { "_".into() } else { ms.iter().map(|(_, c, k)| format!("{}:{}", c, k)).collect::<Vec<_>>().join(",") })
     }
 
     /// compare replica r with the model after a step; record C02 / C04 observations
@@ -61,6 +90,15 @@ impl<'a> World<'a> {
         *self.out.stats.entry("states_compared".into()).or_insert(0) += 1;
         if vs.blocks.iter().any(|(_, b)| b.iter().any(|x| matches!(x, yrs::verif::VBlock::Skip(..)))) { *self.out.stats.entry("states_with_skip".into()).or_insert(0) += 1; }
         if pending { *self.out.stats.entry("states_pending".into()).or_insert(0) += 1; }
+        // what is integrated, where the holes are, whether something is set aside and what for: exactly what the transcription says
+        if self.md.is_some() && r < self.itg.len() && !self.itg[r].is_empty() {
+            let want = World::itg_string(&vs);
+            let got = self.itg[r].clone();
+            *self.out.stats.entry("stores_compared_with_the_transcription_of_apply_update".into()).or_insert(0) += 1;
+            if !got.starts_with(&want) || !got.ends_with("wf=1") {
+                self.out.disagreements.push(json!({"kind": "apply_update transcription (integrated ranges / holes / pending / missing)", "step": self.step, "after": what, "replica": r, "impl": want, "model": got}));
+            }
+        }
         if let Some(md) = self.md.as_mut() {
             let m1 = md.ask(&format!("D stateof r{} {}", r, ids));
             let m1n = if let Some(x) = m1.strip_prefix("ok ") { normalize_model_dump(x) } else { m1.clone() };
@@ -134,8 +172,8 @@ pub fn run_case(seed: u64, stream: u64, index: u64, cfg: &HistCfg, md: Option<&m
     let mut ids: Vec<u64> = CLIENT_IDS.to_vec();
     r.shuffle(&mut ids);
     let reps: Vec<Replica> = (0..nrep).map(|i| Replica::new(ids[i], DocCfg::default())).collect();
-    let mut w = World { reps, md, out: CaseOut { script: vec![], failures: vec![], disagreements: vec![], stats: BTreeMap::new(), nontrivial: false }, step: 0, seen_pairs: HashMap::new() };
-    if let Some(md) = w.md.as_mut() { for i in 0..nrep + 1 { md.ask(&format!("D new r{}", i)); } }
+    let mut w = World { reps, md, out: CaseOut { script: vec![], failures: vec![], disagreements: vec![], stats: BTreeMap::new(), nontrivial: false }, step: 0, seen_pairs: HashMap::new(), itg: vec![] };
+    if let Some(md) = w.md.as_mut() { for i in 0..nrep + 1 { md.ask(&format!("D new r{}", i)); md.ask(&format!("ITG new r{}", i)); } }
     let ecfg = edit_cfg(cfg.focus);
     let mut msgs: Vec<Msg> = vec![];
     let mut delivered: Vec<BTreeSet<usize>> = vec![BTreeSet::new(); nrep];
@@ -204,14 +242,15 @@ pub fn run_case(seed: u64, stream: u64, index: u64, cfg: &HistCfg, md: Option<&m
                 if let Err(e) = res { w.out.failures.push(json!({"property": "C09", "class": "emitted-update-rejected", "step": w.step, "error": e, "v2": v2, "what": "state relay"})); }
                 w.reps[i].drain1(); w.reps[i].drain2();
                 let gained: Vec<usize> = delivered[j].iter().filter(|x| !delivered[i].contains(x)).cloned().collect();
-                for g in gained { let b = msgs[g].v1.clone(); w.model_apply(i, &b); delivered[i].insert(g); }
+                for g in gained { let b = msgs[g].v1.clone(); w.model_apply_units(i, &b); delivered[i].insert(g); }
+                { use yrs::updates::decoder::Decode; use yrs::updates::encoder::Encode; let as_v1 = if v2 { yrs::Update::decode_v2(&bytes).map(|u| u.encode_v1()).unwrap_or_default() } else { bytes.clone() }; w.model_apply_itg(i, &as_v1); }
                 // the relayed state also carries deletions that are in no message: entries the relay overwrote when IT integrated a
                 // concurrent map entry. They reach the receiver with the relay's delete set even when the overwriting entry itself
                 // ends up in the receiver's stash, so the model gets the delete set of the relayed update as well
                 {
                     use yrs::updates::decoder::Decode;
                     let upd = if v2 { yrs::Update::decode_v2(&bytes) } else { yrs::Update::decode_v1(&bytes) };
-                    if let Ok(u) = upd { use yrs::updates::encoder::{Encode, Encoder, EncoderV1}; use yrs::encoding::write::Write; let mut enc = EncoderV1::new(); enc.write_var(0u32); u.delete_set().encode(&mut enc); let ds_only = enc.to_vec(); w.model_apply(i, &ds_only); }
+                    if let Ok(u) = upd { use yrs::updates::encoder::{Encode, Encoder, EncoderV1}; use yrs::encoding::write::Write; let mut enc = EncoderV1::new(); enc.write_var(0u32); u.delete_set().encode(&mut enc); let ds_only = enc.to_vec(); w.model_apply_units(i, &ds_only); }
                 }
                 w.check_state(i, "state relay");
                 *w.out.stats.entry("state_relays".into()).or_insert(0) += 1;
@@ -226,7 +265,7 @@ pub fn run_case(seed: u64, stream: u64, index: u64, cfg: &HistCfg, md: Option<&m
                         w.out.script.push(format!("r{} <- merge(msg{},msg{})", i, m, m2));
                         if let Err(e) = w.reps[i].apply_v1(&bytes) { w.out.failures.push(json!({"property": "C08", "class": "merged-update-rejected", "error": e})); }
                         let (a, b) = (msgs[m].v1.clone(), msgs[m2].v1.clone());
-                        w.model_apply(i, &a); w.model_apply(i, &b);
+                        w.model_apply_units(i, &a); w.model_apply_units(i, &b); w.model_apply_itg(i, &bytes);
                         delivered[i].insert(m); delivered[i].insert(m2);
                         w.reps[i].drain1(); w.reps[i].drain2();
                         w.check_state(i, "merged delivery");
@@ -245,6 +284,7 @@ pub fn run_case(seed: u64, stream: u64, index: u64, cfg: &HistCfg, md: Option<&m
             w.reps[i].drain1(); w.reps[i].drain2();
             let bytes = msgs[m].v1.clone();
             w.model_apply(i, &bytes);
+            if dup { w.model_apply_itg(i, &bytes); }
             delivered[i].insert(m);
             w.check_state(i, "late delivery");
             k += 1;
